@@ -195,6 +195,34 @@ VRRTable(ev) ==
      ELSE PBad("C11: unbiased_randrange(" \o ToString(ev.start) \o ", " \o ToString(ev.start + ev.width)
                \o ") on first draw " \o ToString(FirstBad(bad)), "")
 
+(* group.random_scalar(entropy_f) called directly: the scalar as a function of  *)
+(* the entropy log (Ed25519: 64 bytes mod L; integer groups: the sampler on    *)
+(* [0, q))                                                                      *)
+RandomScalarOf(g, log) ==
+  IF g.kind = "int" THEN Randrange(NLit(0), g.q, log) ELSE EdRandomScalar(g.L, log)
+VRS(ev) ==
+  LET g == GroupTable[ev.grp]
+      r == RandomScalarOf(g, PEntLog(ev))
+  IN IF ~r.ok THEN PBad("C11: random_scalar: " \o r.why, "")
+     ELSE IF ev.out.t # "val" \/ PHNum(ev.out.v) # r.v \/ ~NLt(PHNum(ev.out.v), GOrder(g))
+          THEN PBad("C11: random_scalar is not the specified function of the entropy bytes", BytesToHex(NToBytes(r.v, 1)))
+     ELSE PGood
+(* many streams of one draw each: a stream whose only draw is rejected by the   *)
+(* integer sampler continues with zeros (0 is accepted)                         *)
+VRSTable(ev) ==
+  LET g == GroupTable[ev.grp]
+      case(k) ==
+        LET st  == HexToBytes(ev.ents[k])
+            r1  == RandomScalarOf(g, << [req |-> Len(st), got |-> st] >>)
+            r   == IF r1.ok \/ g.kind # "int" THEN r1
+                   ELSE RandomScalarOf(g, << [req |-> Len(st), got |-> st], [req |-> Len(st), got |-> Zeros(Len(st))] >>)
+            n   == IF r1.ok \/ g.kind # "int" THEN Len(st) ELSE 2 * Len(st)
+        IN r.ok /\ ev.res[k] \notin {"neg", "loop", "err"} /\ PHNum(ev.res[k]) = r.v /\ ev.used[k] = n
+      bad == {k \in 1..Len(ev.ents) : ~case(k)}
+  IN IF Len(ev.res) # Len(ev.ents) \/ Len(ev.used) # Len(ev.ents) THEN PBad("harness: table size", "")
+     ELSE IF bad = {} THEN PGood
+     ELSE PBad("C11: random_scalar is not the specified function of the entropy bytes " \o ev.ents[FirstBad(bad)], "")
+
 (* ---- C14: derivations ------------------------------------------------------ *)
 VPw2s(ev) ==
   LET g == GroupTable[ev.grp]
@@ -344,6 +372,8 @@ PureVerdict(ev) ==
     [] ev.op = "g_op"        -> VOp(ev)
     [] ev.op = "rr"          -> VRR(ev)
     [] ev.op = "rr_table"    -> VRRTable(ev)
+    [] ev.op = "rs"          -> VRS(ev)
+    [] ev.op = "rs_table"    -> VRSTable(ev)
     [] ev.op = "pw2s"        -> VPw2s(ev)
     [] ev.op = "arb"         -> VArb(ev)
     [] ev.op = "n2b_table"   -> VN2BTable(ev)
